@@ -14,7 +14,7 @@ ID = "C14"
 LEVEL = "exploration"
 RULE = ("Histories of up to 4 prior operations drawn from {construct (optionally sharing page / title / footnote "
         "/ source / body / column-header OBJECTS with an earlier document), encode, encode expecting ValueError, "
-        "encode twice} over a pool of 14 document archetypes (plain, coloured, multi-section with/without "
+        "encode twice, change a nested setting (rtf_page.nrow) of a live document in place} over a pool of 14 document archetypes (plain, coloured, multi-section with/without "
         "footnote, figure, grouped, grouped non-contiguous, paginated page_by, subline_by, 2- and 3-column tables "
         "that can share components), followed by encoding every live document. Exhaustive: all histories of "
         "length <=2 over archetype x sharing menu; generated: Hypothesis op-sequence strategy (indices are "
@@ -167,26 +167,44 @@ def encode(live):
 def check(case) -> Result:
     res = Result()
     hist = case["history"]
-    recs = effective_recipe(hist, len(hist))
     pool = []
-    ri = 0
     flags = set()
     try:
         for op in hist:
             if op["op"] == "construct":
-                rec = recs[ri]
-                ri += 1
+                # the document's value as a recipe: its archetype, with shared components taking the donor's CURRENT value
+                rec = copy.deepcopy(ARCH[op["arch"]])
                 sh = op.get("share")
                 donor, what = None, []
                 if sh and pool:
                     donor = pool[sh["from"] % len(pool)]
-                    what = applicable(sh["what"], copy.deepcopy(ARCH[op["arch"]]), donor.rec)
+                    what = applicable(sh["what"], rec, donor.rec)
+                    for w in what:
+                        if w in COMPONENT_ARG:
+                            rec[w] = copy.deepcopy(donor.rec.get(w))
+                        elif w == "body":
+                            rec["sections"][0]["body"] = copy.deepcopy(donor.rec["sections"][-1 if donor.rec["kind"] == "multi" else 0]["body"])
+                        elif w == "header":
+                            rec["sections"][0]["headers"] = copy.deepcopy(donor.rec["sections"][0]["headers"])
                 b = construct(rec, donor, what)
                 pool.append(Live(b, [d.clone() for d in b.dfs], rec, what))
                 if what:
                     flags.add("shared")
                 if rec["kind"] in ("multi", "figure"):
                     flags.add("multi/figure")
+            elif op["op"] == "set_nrow" and pool:
+                # the user changes a nested setting of a live document in place; "equal-valued" now means the new value
+                lv = pool[op["doc"] % len(pool)]
+                lv.built.doc.rtf_page.nrow = op["nrow"]
+                lv.rec = copy.deepcopy(lv.rec)
+                lv.rec["page"] = dict(lv.rec.get("page") or {}, nrow=op["nrow"])
+                lv.results = []          # earlier results belong to the earlier value
+                for other in pool:       # documents sharing this page object change with it
+                    if other is not lv and other.built.doc.rtf_page is lv.built.doc.rtf_page:
+                        other.rec = copy.deepcopy(other.rec)
+                        other.rec["page"] = dict(other.rec.get("page") or {}, nrow=op["nrow"])
+                        other.results = []
+                flags.add("mutated_in_place")
             elif pool:
                 lv = pool[op["doc"] % len(pool)]
                 for _ in range(2 if op["op"] == "encode_twice" else 1):
@@ -247,7 +265,10 @@ def _history(draw):
     n = draw(st.integers(1, 4))
     hist = [_construct(draw(st.integers(0, len(ARCH) - 1)))]
     for _ in range(n):
-        kind = draw(st.sampled_from(["construct", "construct", "encode", "encode", "encode_twice"]))
+        kind = draw(st.sampled_from(["construct", "construct", "encode", "encode", "encode_twice", "set_nrow"]))
+        if kind == "set_nrow":
+            hist.append({"op": "set_nrow", "doc": draw(st.integers(0, 5)), "nrow": draw(st.sampled_from([3, 5, 7, 40]))})
+            continue
         if kind == "construct":
             share = None
             if draw(st.integers(0, 9)) < 6:
@@ -275,6 +296,10 @@ def enumerate_cases(tier):
     for a in archs:
         yield {"history": [_construct(a)]}
         yield {"history": [_construct(a), {"op": "encode_twice", "doc": 0}]}
+    for a in archs:      # encode, change a nested setting in place, encode again
+        if ARCH[a]["kind"] != "figure":
+            yield {"history": [_construct(a), {"op": "encode", "doc": 0}, {"op": "set_nrow", "doc": 0, "nrow": 3}]}
+            yield {"history": [_construct(a), {"op": "set_nrow", "doc": 0, "nrow": 5}, {"op": "encode", "doc": 0}, {"op": "set_nrow", "doc": 0, "nrow": 40}]}
     for a, b in itertools.product(archs, archs):
         if tier == "quick" and (a * 5 + b) % 3:
             continue
